@@ -84,12 +84,16 @@ where
     // used in docs/internals/runtime.md
     // ANCHOR: process_event
     pub fn process_event(&self, event: A::Event) -> Vec<A::Effect> {
+        #[cfg(crux_verif)]
+        let model_scope = crate::verif::LockScope::new("model");
         let mut model = self.model.write().expect("Model RwLock was poisoned.");
 
         let command = self.app.update(event, &mut model, &self.capabilities);
 
         // drop the model here, we don't want to hold the lock for the process() call
         drop(model);
+        #[cfg(crux_verif)]
+        drop(model_scope);
 
         self.command_spawner.spawn(command);
         self.process()
@@ -128,26 +132,54 @@ where
         self.executor.run_all();
 
         while let Some(capability_event) = self.capability_events.receive() {
+            #[cfg(crux_verif)]
+            crate::verif::point("core.process.event");
+            #[cfg(crux_verif)]
+            let model_scope = crate::verif::LockScope::new("model");
             let mut model = self.model.write().expect("Model RwLock was poisoned.");
             let command = self
                 .app
                 .update(capability_event, &mut model, &self.capabilities);
 
             drop(model);
+            #[cfg(crux_verif)]
+            drop(model_scope);
 
             self.command_spawner.spawn(command);
             self.executor.run_all();
         }
 
+        #[cfg(crux_verif)]
+        crate::verif::point("core.process.before_drain");
         self.requests.drain().collect()
     }
     // ANCHOR_END: process
 
     /// Get the current state of the app's view model.
     pub fn view(&self) -> A::ViewModel {
+        #[cfg(crux_verif)]
+        let _model_scope = crate::verif::LockScope::new("model");
         let model = self.model.read().expect("Model RwLock was poisoned.");
 
         self.app.view(&model)
+    }
+}
+
+#[cfg(crux_verif)]
+impl<A> Core<A>
+where
+    A: App,
+{
+    /// (executor task slots in use, queued spawns, queued wake-ups, undelivered effects, unapplied events)
+    pub fn verif_stats(&self) -> (usize, usize, usize, usize, usize) {
+        let (tasks, spawns, ready) = self.executor.verif_stats();
+        (
+            tasks,
+            spawns,
+            ready,
+            self.requests.verif_len(),
+            self.capability_events.verif_len(),
+        )
     }
 }
 
